@@ -179,6 +179,7 @@ namespace bxdecay0 {
                 bbpars & bb_params_)
   {
     static bool trace = is_trace("genbbsub");
+    BXDECAY0_VERIF_SCOPE("genbbsub", i2bbs_, ilevel_, modebb_, istart_);
     if (trace) {
       std::cerr << "[debug] bxdecay0::genbbsub: Entering..." << std::endl;
     }
